@@ -1,7 +1,8 @@
 (** C18: the pause schedule follows local wall-clock time in its zone.
     Only statements here; proofs live in Proofs/Schedule.v. *)
 From Coq Require Import ZArith List.
-From AGH Require Import Model.Schedule Proofs.Schedule.
+From AGH Require Import Base.Run Model.Schedule Proofs.Schedule.
+From AGH Require Import Model.ScheduleText Proofs.ScheduleText.
 Local Open Scope Z_scope.
 
 (** For every zone (any offset function), instant and schedule: in effect
@@ -48,6 +49,39 @@ Print Assumptions C18_roundtrip_json.
 Theorem C18_roundtrip_yaml : forall w, weekly_ok w -> unmarshal_yaml (marshal_yaml w) = inr w.
 Proof. exact yaml_roundtrip. Qed.
 Print Assumptions C18_roundtrip_yaml.
+
+(** The same round trips on the concrete texts.  YAML: every non-zero day is
+    written as two [timeutil.Duration] strings (Go's [time.Duration.String]
+    with the trailing "0s" / "0m0s" cut) and read back by Go's
+    [time.ParseDuration]; JSON: as two millisecond number texts read back as
+    decimals.  The decoders take the texts in document order. *)
+Theorem C18_roundtrip_yaml_text : forall w,
+  weekly_ok w -> unmarshal_yaml_text (marshal_yaml_text w) = inr w.
+Proof. exact yaml_text_roundtrip. Qed.
+Print Assumptions C18_roundtrip_yaml_text.
+
+Theorem C18_roundtrip_json_text : forall w,
+  weekly_ok w -> unmarshal_json_text (marshal_json_text w) = inr w.
+Proof. exact json_text_roundtrip. Qed.
+Print Assumptions C18_roundtrip_json_text.
+
+(** The finite domain underneath: the 1441 whole minutes of a day. *)
+Theorem C18_minute_text_yaml : forall k,
+  0 <= k <= 1440 -> parse_duration (tu_string (k * ns_min)) = inr (k * ns_min).
+Proof. exact yaml_minute_roundtrip. Qed.
+Print Assumptions C18_minute_text_yaml.
+
+Theorem C18_minute_text_json : forall k,
+  0 <= k <= 1440 -> parse_ms_text (print_ms_text (k * ns_min)) = Some (k * ns_min).
+Proof. exact json_minute_roundtrip. Qed.
+Print Assumptions C18_minute_text_json.
+
+(** Whatever the texts and their order in the document, an accepted document
+    is a validated schedule. *)
+Theorem C18_text_unmarshal_only_valid : forall parse n fs w,
+  unmarshal_fields parse n fs = inr w -> weekly_ok w.
+Proof. exact unmarshal_fields_only_valid. Qed.
+Print Assumptions C18_text_unmarshal_only_valid.
 
 Theorem C18_unmarshal_only_valid : forall l w,
   unmarshal_ranges l = inr w -> w = l /\ weekly_ok w.
